@@ -34,6 +34,8 @@ func init() {
 			c10Idle(r)
 			c10DefaultsAppliedLast(r)
 			c10EvictionScansEveryPartition(r)
+			c10LRUSampleUnfiltered(r)
+			kvLookupVisitsEveryTable(r)
 		},
 	})
 }
